@@ -227,7 +227,25 @@ def run(m, rep, tier):
             continue
         bad = []
         notes = []
+        from ..facts import phi_leaves as _pl
         for st, pi, off, init in found:
+            # a start that merges the old size with something else: any alternative read from the capacity skips the part
+            # of the grown string that lies inside the old allocation (stale characters of an earlier, longer content)
+            ini = f.get(init) if isinstance(init, str) else None
+            lv = list(ini.o) if (ini is not None and ini.op in ('phi', 'select') and init not in szv) else [init]
+            if ini is not None and ini.op == 'select':
+                lv = list(ini.o[1:])
+            def from_cap(x):
+                for r in nw.family(f, x) if isinstance(x, str) else ():
+                    ri = f.get(r) if isinstance(r, str) else None
+                    if ri is not None and ri.op == 'load' and resolve_addr(f, ri.o[0]).fsteps[-1:] == (('cstl_vector', 'cap'),):
+                        return True
+                return False
+            capl = [x for x in lv if x not in szv and from_cap(x)]
+            if capl and any(x in szv for x in lv):
+                bad.append('the NUL fill at %s can start at the old capacity instead of the old size: characters between the old size and the '
+                           'old capacity keep whatever an earlier, longer content left there' % st.loc())
+                continue
             if init not in szv:
                 notes.append('NOT DECIDED: the fill at %s starts from %s, not recognisably the old size' % (st.loc(), nw.describe(f, init)))
                 continue
